@@ -82,7 +82,7 @@ class Ctx:
         self.c.update({"programs": 0, "max_dev_over_tol": 0.0, "max_dev_exact_class": 0.0, "runs_by_sim_mode": {}, "by_observable": {},
                        "ambiguous_euler_programs": 0, "ambiguous_bounded_comparisons": 0, "ambiguous_skipped_compiled": 0, "ambiguous_trivial_bound": 0,
                        "max_dev_ambiguous_class": 0.0, "max_bound_ambiguous_class": 0.0, "unsupported": 0, "jit_tracer_errors": 0,
-                       "polar_nonunitary": 0, "corrected_polar_reruns": 0, "corrected_polar_agree": 0,
+                       "polar_nonunitary": 0, "euler_probes": 0, "corrected_polar_reruns": 0, "corrected_polar_agree": 0,
                        "phaseshifter_reference_checks": 0, "phase_sensitive_inputs": 0, "complex_euler_gate_programs": 0,
                        "permuted_mode_gates": 0, "degenerate_gaussian_transforms": 0})
         self.classes = set()
@@ -439,6 +439,39 @@ def polar_probe(pq, doc, gate_indices):
     return worst_u, worst_rec
 
 
+def euler_probe(pq, doc, gate_indices, modes):
+    """piquasso._math.decompositions.euler called directly, per connector, on the symplectic matrix of the listed gates:
+    largest deviation of U_last [cosh D, -sinh D] U_first from the gate's (passive, active) blocks (the single-mode
+    squeezer the steps apply has blocks cosh r, -sinh r)."""
+    from piquasso._math.decompositions import euler
+
+    out = {}
+    for mode in modes:
+        base = "numpy" if mode == "numpy" else ("tf" if mode.startswith("tf") else "jax")
+        if base in out:
+            continue
+        conn = make_connector(pq, base) or pq.NumpyConnector()
+        worst = 0.0
+        for i in gate_indices:
+            P, A = _blocks_of(doc["ins"][i])
+            S = np.block([[P, A], [A.conj(), P.conj()]])
+            if base == "tf":
+                S = backend("tf").constant(S)
+            elif base == "jax":
+                S = backend("jax").numpy.asarray(S)
+            try:
+                Ul, D, Uf = [np.asarray(x) for x in euler(S, conn)]
+            except Exception as e:
+                out[base] = "raises %s" % type(e).__name__
+                break
+            D = np.real(D)
+            worst = max(worst, float(np.abs(P - Ul @ np.diag(np.cosh(D)) @ Uf).max()),
+                        float(np.abs(A + Ul @ np.diag(np.sinh(D)) @ Uf.conj()).max()))
+        else:
+            out[base] = worst
+    return out
+
+
 def phaseshifter_reference(pq, doc, angles):
     """sum_n p(n) exp(i phi.n) from the NumPy state's photon statistics at a large cutoff; (value, tail)."""
     from vf.gen import programs as G
@@ -717,8 +750,26 @@ def _classify(ctx, pq, case, results, deviating, ambiguous, complex_gates, size,
             if bad is not None:
                 mech = "jax-loop-hafnian-non-finite"
                 note = " [piquasso._math.jax.hafnian.loop_hafnian_with_reduction called directly on the state's (A, b) with reduce_on=%s returns %s]" % bad
-        if sim == "purefock" and m.startswith("tf") and complex_gates and polar_u is not None:
-            jax_ok = ("jax" not in results) or ("jax" in results and "error" not in results["jax"] and "jax" not in deviating)
+        if sim == "purefock" and ambiguous:
+            # a deviation beyond the leaked amplitude: is the Euler decomposition of a degenerate gate itself wrong?
+            rec = euler_probe(pq, doc, ambiguous, ["numpy", m])
+            ctx.c["euler_probes"] += 1
+            if any(isinstance(v, float) and v > 1e-8 for v in rec.values()):
+                mech = "takagi-degenerate-branch-cut-connector-dependent"
+            note += " [euler() called directly on the degenerate gate(s): recomposition error %s]" % rec
+        if sim == "purefock" and m.startswith("tf") and complex_gates and polar_u is not None and \
+                mech != "takagi-degenerate-branch-cut-connector-dependent":
+            if "jax" not in results:
+                # TensorFlow shards run JAX only when it is needed to attribute a deviation (NumPy and JAX agree?)
+                results["jax"] = run_mode(pq, doc, "jax", extra, ledger=ambiguous or None)
+                ctx.count("runs_by_sim_mode", "%s/jax" % sim)
+                if "error" not in results["jax"]:
+                    bj = 0.0
+                    if ambiguous and results["jax"]["b"] is not None and results["numpy"]["b"] is not None:
+                        bj = results["jax"]["b"] + results["numpy"]["b"]
+                    if _compare_obs(Ctx(), sim, "jax", results["numpy"]["obs"], results["jax"]["obs"], size, n_ins, bj, False):
+                        deviating = dict(deviating, jax=[("lazy", 0, 0, "")])
+            jax_ok = "error" not in results["jax"] and "jax" not in deviating
             nonunitary = polar_u[0] > 1e-6
             ctx.c["corrected_polar_reruns"] += 1
             compiled = m == "tf-function-outer"
@@ -734,7 +785,7 @@ def _classify(ctx, pq, case, results, deviating, ambiguous, complex_gates, size,
                 agree = not left
             if agree:
                 ctx.c["corrected_polar_agree"] += 1
-            note = " [connector.polar on the gate's symplectic matrix: |U U+ - 1| = %.2e, |P U - M| = %.1e; with the textbook polar the %s run %s]" % (
+            note += " [connector.polar on the gate's symplectic matrix: |U U+ - 1| = %.2e, |P U - M| = %.1e; with the textbook polar the %s run %s]" % (
                 polar_u[0], polar_u[1], m, "agrees with NumPy" if agree else "still differs")
             if nonunitary and agree and jax_ok:
                 mech = "tensorflow-polar-not-unitary"
@@ -910,14 +961,21 @@ def gen_passive(rng, d):
 
 
 def gen_fermionic(rng, sim, d):
+    """Mostly >= 2 particles (the antisymmetric part of the n-particle representations only shows then) and Haar
+    interferometers on runs of consecutive modes."""
+    from vf.gen import matrices as M
     from vf.gen import programs as G
 
-    occ = [int(v) for v in rng.integers(0, 2, size=d)]
+    n = int(rng.integers(2, d + 1)) if rng.random() < 0.75 else int(rng.integers(0, 2))
+    occ = [0] * d
+    for m in rng.permutation(d)[:n]:
+        occ[int(m)] = 1
     ins = [{"t": "NumberState", "m": None, "p": {"occupation_numbers": occ}}]
     pool = ["Beamsplitter", "Phaseshifter", "Interferometer", "Interferometer", "Squeezing2"]
     if sim == "ffock":
         pool += ["MachZehnder", "Fourier", "Beamsplitter5050"]
-    for _ in range(int(rng.integers(1, 6))):
+    want = int(rng.integers(1, 6))
+    while len(ins) - 1 < want:
         name = str(rng.choice(pool))
         g = G.gate(rng, name, d, active_scale=0.5)
         if g is None:
@@ -927,12 +985,14 @@ def gen_fermionic(rng, sim, d):
         g["m"] = list(range(start, start + k))
         if name == "Squeezing2":
             g["p"]["phi"] = float(rng.uniform(0.2, np.pi - 0.2) * rng.choice([-1, 1]))
+        if name == "Interferometer" and rng.random() < 0.6:
+            g["p"]["matrix"] = M.enc(M.haar_unitary(rng, k))
         ins.append(g)
     return {"sim": sim, "d": d, "config": {"cutoff": d + 1}, "ins": ins, "shots": 1}, {}
 
 
 # ------------------------------------------------------------------------------ plan / run
-SHAPES_PF = [(1, 5), (1, 7), (2, 4), (2, 5), (2, 6), (2, 7), (3, 3), (3, 4), (3, 5), (1, 3), (2, 3), (3, 6)]
+SHAPES_PF = [[(3, 3), (3, 4), (3, 5), (3, 6)], [(2, 4), (2, 5), (2, 6), (2, 7)], [(1, 5), (1, 7), (2, 3), (1, 3), (3, 4), (2, 5)]]
 SHAPES_G = [(1, 6), (2, 4), (2, 5), (3, 3), (3, 4), (1, 4), (2, 3)]
 
 MIN_CASES = {"purefock-tf": 8, "purefock-jax": 14, "gaussian": 10, "passive": 60, "fermionic": 30}
@@ -946,9 +1006,9 @@ def plan(tier, seed):
     specs = []
 
     def add(family, n, weight=1, **kw):
-        for _ in range(n):
+        for g in range(n):
             i = len(specs)
-            s = {"name": "%s-%d" % (family, i), "family": family, "shard": i, "env": dict(ENV), "weight": weight}
+            s = {"name": "%s-%d" % (family, i), "family": family, "shard": i, "group": g, "env": dict(ENV), "weight": weight}
             s.update(kw)
             specs.append(s)
 
@@ -979,8 +1039,9 @@ def run_shard(spec):
     t0 = time.time()
     if fam == "purefock-tf":
         backend("tf")
-    backend("jax")
-    count_perm_calls(ctx)
+    else:
+        backend("jax")
+        count_perm_calls(ctx)
     t_import = time.time() - t0
     if t_import > 60:
         ctx.obs.add("backend import took more than 60 s in a %s shard (busy machine)" % fam)
@@ -989,7 +1050,8 @@ def run_shard(spec):
     # every new (d, cutoff) costs JAX 5-30 s of one-off kernel compilation: few shapes per shard
     n_shapes = 1 if quick else 3
     if fam in ("purefock-tf", "purefock-jax"):
-        shapes = _shapes_for(rng, SHAPES_PF, n_shapes)
+        # the k-th shard of a family draws from the k-th group, so that d = 3, d = 2 and the small shapes are all present
+        shapes = _shapes_for(rng, SHAPES_PF[int(spec["group"]) % len(SHAPES_PF)], n_shapes)
     elif fam == "gaussian":
         shapes = _shapes_for(rng, SHAPES_G, n_shapes)
     else:
@@ -1011,13 +1073,13 @@ def gen_case(rng, fam, i, shapes, quick):
     """Compiled modes on every k-th program only (each new program retraces)."""
     if fam == "purefock-tf":
         d, cutoff = shapes[i % len(shapes)]
-        modes = ["tf", "jax"]
+        modes = ["tf"]
         kind = "ambiguous" if (i % 5 == 3 and d >= 2) else "exact"
         if i % 12 == 4:
             kind = "no-euler"
-            modes.insert(1, "tf-function-outer")
+            modes.append("tf-function-outer")
         if i % 3 == 0:
-            modes.insert(1, "tf-function")
+            modes.append("tf-function")
         doc, extra = gen_purefock(rng, d, cutoff, real_bias=0.55, kind=kind, max_gates=3 if kind == "no-euler" else 4)
         if i == 0 and not any(x["t"] in EULER_GATES for x in doc["ins"]):
             # the first program of a TensorFlow shard always exercises the Euler / polar path with complex blocks
@@ -1042,7 +1104,7 @@ def gen_case(rng, fam, i, shapes, quick):
         modes = ["jax"] + (["jax-jit"] if i % 5 == 1 else [])
     elif fam == "fermionic":
         sim = "ffock" if i % 2 == 0 else "fgaussian"
-        doc, extra = gen_fermionic(rng, sim, int(rng.integers(2, 4)))
+        doc, extra = gen_fermionic(rng, sim, int(rng.integers(2, 5)))
         modes = ["jax"] + (["jax-jit"] if i % 5 == 1 else [])
     else:
         raise KeyError(fam)
